@@ -512,6 +512,24 @@ where
         self.radio_kind.set_tx_continuous_wave_mode().await
     }
 
+    /// The driver's belief about the chip mode (verification harnesses only).
+    #[cfg(feature = "verif-hooks")]
+    pub fn verif_radio_mode(&self) -> RadioMode {
+        self.radio_mode
+    }
+
+    /// Whether the driver considers the chip configuration lost (verification harnesses only).
+    #[cfg(feature = "verif-hooks")]
+    pub fn verif_cold_start(&self) -> bool {
+        self.cold_start
+    }
+
+    /// Access to the chip driver, e.g. to reach the harness's SPI/pin stubs (verification harnesses only).
+    #[cfg(feature = "verif-hooks")]
+    pub fn verif_radio_kind(&mut self) -> &mut RK {
+        &mut self.radio_kind
+    }
+
     async fn prepare_modem(&mut self, frequency_in_hz: u32) -> Result<(), RadioError> {
         self.radio_kind.ensure_ready(self.radio_mode).await?;
         if self.radio_mode != RadioMode::Standby {
